@@ -28,6 +28,9 @@ LINTER = 'supp/linter.py'
 
 
 def run(repo, res):
+    _ns, _np = R.shape_stats(repo)
+    res.extra['e1_shapes_interpreted'] = _ns
+    res.extra['e1_shape_paths_interpreted'] = _np
     seen = set()
     n = 0
     for r in R.block_records(repo):
